@@ -278,6 +278,49 @@ def scanner_obligations(ctx, rule_prefix: str = ""):
             ok = any((t == s.block and not pol) or (pol and n is not None and _mentions(inline(f.node, n, stop=frozenset(x for x in (posvar, pvar, s.carry, s.hay, s.block) if x)), s.ps[3])) for t, pol, n in dc)
             _emit(ctx, P, "R4", "LOOP", f, "outer exit " + ("on empty read" if any(t == s.block and not pol for t, pol, n in dc) else "on limit" if ok else "under " + "; ".join(conds[-2:])), ok,
                   f"outer loop exit under {conds}: must be an empty read or the limit test", bst)
+        # the loop header is an exit too (round 8, C15o: `eof = len(block) < block_size` ... `while not eof`): a read that
+        # returns fewer bytes than asked for is not the end of the file (raw / unbuffered streams, pipes, wrappers), so a
+        # header that stops on a *short* block loses every later occurrence.  Violated only when the header test is (a
+        # flag bound to) an ordering comparison of len(<block>) - anything else that is not the emptiness of the block or
+        # the limit is left undecided.
+        if not (isinstance(o.test, ast.Constant) and bool(o.test.value)):
+            ht = o.test
+            flag_defs = []
+            core = ht.operand if isinstance(ht, ast.UnaryOp) and isinstance(ht.op, ast.Not) else ht
+            if isinstance(core, ast.Name):
+                flag_defs = [v for st_, v in assignments_to(f.node, core.id) if v is not None and not isinstance(v, ast.Constant)]
+            cands = flag_defs or [core]
+
+            def _short_read(e):
+                for n in ast.walk(e):
+                    if isinstance(n, ast.Compare) and len(n.ops) == 1 and isinstance(n.ops[0], (ast.Lt, ast.LtE, ast.Gt, ast.GtE, ast.NotEq)):
+                        sides = [n.left, n.comparators[0]]
+                        lens = [x for x in sides if isinstance(x, ast.Call) and dotted(x.func) == "len" and x.args and dotted(x.args[0]) == s.block]
+                        others = [x for x in sides if x not in lens]
+                        if lens and others and not (isinstance(others[0], ast.Constant) and others[0].value in (0, 1)):
+                            return n
+                return None
+
+            def _emptiness(e):
+                if isinstance(e, ast.NamedExpr):
+                    return dotted(e.target) == s.block
+                if isinstance(e, ast.Name):
+                    return e.id == s.block
+                if isinstance(e, ast.Call) and dotted(e.func) == "len" and e.args:
+                    return dotted(e.args[0]) == s.block
+                return False
+
+            sr = next((x for x in map(_short_read, cands) if x is not None), None)
+            if sr is not None:
+                _emit(ctx, P, "R4", "LOOP", f, "outer exit through the loop header", False,
+                      f"the outer loop stops when `{src(sr)}` - a read shorter than requested is not the end of the file: "
+                      f"occurrences behind the first short block are lost; the exit must be an empty read or the limit test", o)
+            elif all(_emptiness(c) for c in cands) or any(_mentions(inline(f.node, c, stop=frozenset(x for x in (posvar, pvar, s.carry, s.hay, s.block) if x)), s.ps[3]) for c in cands):
+                _emit(ctx, P, "R4", "LOOP", f, "outer exit through the loop header", True,
+                      f"header test `{src(ht)}` is the emptiness of the block read or the limit test", o)
+            else:
+                ctx.undecided(P if P.startswith("R8") else "R4", "LOOP", f, ("[R4] " if P.startswith("R8") else "") + "outer exit through the loop header",
+                              f"header test `{src(ht)}` is neither the emptiness of the block, the limit test nor a short-read test")
     # ---- R5: limit tests
     # A limit test is any `if` / loop-header test that (with single-definition temporaries expanded, so that a hoisted
     # `limit = max_offset if max_offset else None` is seen through) mentions max_offset.  Its stop condition is judged in
